@@ -417,6 +417,7 @@ struct dynamic_grainsize_mode : Mode {
                 // - initial value of my_divisor != 0 (protected by separate assertion)
                 // - is_stolen_task() always returns false for the root task.
 #endif
+                __TBB_VERIF_POINT(vp_part_being_stolen, &t, 0);
                 tree_node::mark_task_stolen(t);
                 if( !my_max_depth ) my_max_depth++;
                 my_max_depth += __TBB_DEMAND_DEPTH_ADD;
@@ -463,6 +464,7 @@ struct dynamic_grainsize_mode : Mode {
                 return true;
             }
             else if ( tree_node::is_peer_stolen(t) ) {
+                __TBB_VERIF_POINT(vp_part_demand_split, &t, 0);
                 my_max_depth += __TBB_DEMAND_DEPTH_ADD;
                 return true;
             }
